@@ -77,14 +77,8 @@ func symxC07() {
 		tp = b2.start(nil)
 		target = b2
 		// gossip may reach the peer in any order: the solver picks a pair of broadcasts to swap
-		payloads := rt.Drain(b.bq)
-		if n := len(payloads); n >= 2 {
-			i, j := int(rt.Int("swap_a", 0, int64(n-1))), int(rt.Int("swap_b", 0, int64(n-1)))
-			payloads[i], payloads[j] = payloads[j], payloads[i]
-		}
-		for _, payload := range payloads {
-			b2.state.Distributor().NotifyMsg(payload)
-		}
+		// ... or lose the tail of them and be repaired by the periodic push/pull
+		symxGossip(rt.Drain(b.bq), b, b2)
 	}
 	newS, newC := target.session("new", "cn", "m", 30)
 	f := int(rt.Int("filter", 0, int64(len(symxRetFilters)-1)))
